@@ -119,13 +119,19 @@ def judge_cl(s):
     return exp, True, ok, None
 
 
-def judge_ctl(s):
+def judge_ctl(s, piece=None):
     from waitress.buffers import OverflowableBuffer
     from waitress.receiver import ChunkedReceiver
     exp = T.is_control_line(s)
     r = ChunkedReceiver(OverflowableBuffer(1 << 20))
     try:
-        r.received(s + b"\r\n")
+        data = s + b"\r\n"
+        if piece:
+            # the line arrives in reads of `piece` bytes (the channel reads recv_bytes at a time): acceptance is a property of the line
+            for i in range(0, len(data), piece):
+                r.received(data[i:i + piece])
+        else:
+            r.received(data)
     except Exception as e:
         return exp, False, True, type(e).__name__
     acc = r.error is None and r.control_line == b""
@@ -193,11 +199,11 @@ def excluded(gate, s):
     return False
 
 
-def check(gate, s):
+def check(gate, s, piece=None):
     """-> list of failures for one string"""
     if excluded(gate, s):
         raise C.CaseInvalid("contains CRLF")
-    exp, acc, ok, raised = JUDGES[gate](s)
+    exp, acc, ok, raised = JUDGES[gate](s) if not piece else judge_ctl(s, piece)
     fails = []
     if raised:
         fails.append({"sig": "C10/%s/raises/%s" % (gate, raised), "detail": "%s on %r" % (raised, s[:80])})
@@ -224,7 +230,21 @@ def run_case(case):
         s = s2b(case["s"])
     except UnicodeEncodeError:
         raise C.CaseInvalid("latin-1")
-    return check(gate, s)[0]
+    piece = case.get("piece")
+    if piece is not None and (gate != "ctl" or not isinstance(piece, int) or piece < 1):
+        raise C.CaseInvalid("piece")
+    return check(gate, s, piece)[0]
+
+
+def long_ctl_cases():
+    """chunk-size lines far beyond any plausible internal limit (the grammar has none), members and near-members, delivered whole and
+    in pieces of 8192 / 1000 / 65536 bytes"""
+    for n in (9000, 70000, 140000):
+        members = ["0" * n + "5", "5;name=" + "v" * n, "5;q=\"" + "q r" * (n // 3) + "\"", "5" + ";a=b" * (n // 4), "f" * 12 + ";" + "t" * n]
+        for m in members:
+            for variant in (m, m + "\x01", m[:len(m) // 2] + " " + m[len(m) // 2:]):
+                for piece in (None, 8192, 1000, 65536):
+                    yield {"gate": "ctl", "s": variant, "piece": piece} if piece else {"gate": "ctl", "s": variant}
 
 
 # ---------------------------------------------------------------- alphabets / bases
@@ -319,6 +339,8 @@ def jobs(tier, seed):
         js.append({"kind": "sweep", "gate": gate})
         for sh in range(nsh):
             js.append({"kind": "frags", "gate": gate, "L": 4 if tier == "quick" else 5, "shard": sh, "nshards": nsh})
+    for sh in range(4):
+        js.append({"kind": "long_pieces", "shard": sh, "nshards": 4})
     n = 400 if tier == "quick" else 8000
     for sh in range(8):
         js.append({"kind": "hyp", "n": n, "seed": derive_seed(seed, "c10", sh)})
@@ -352,6 +374,11 @@ def long_strategy():
 
 def run_job(job, col):
     gate = job.get("gate")
+    if job["kind"] == "long_pieces":
+        for i, case in enumerate(long_ctl_cases()):
+            if i % job["nshards"] == job["shard"]:
+                col.record(case, run_case(case), nontrivial=True, labels=("long-control-line", "pieces:%s" % case.get("piece")))
+        return
     if job["kind"] == "exh":
         A = ALPHA[gate]
 
